@@ -26,7 +26,7 @@
         assert forall|k: Seq<char>| #[trigger] self.variable_bounds.has(k) implies wf(self.variable_bounds.map()[k]) by { if k != nm { assert(old(self).variable_bounds.has(k)); } }
     }
 @fn Linearizer::add_constraint
-    requires lz_inv(*old(self)),
+    requires lz_inv(*old(self)), c_fin(constraint),
     ensures
         lz_inv(*final(self)),
         lz_ext(*old(self), *final(self)),
